@@ -55,6 +55,8 @@ RTAtoms ==
   \cup {[pattern |-> "^a"], [anchor |-> "a"], [dynamicAnchor |-> "a"], [schema |-> D2020]}
   \cup {(kw :> l) : kw \in SingleKW, l \in {TrueS, FalseS, IntS, [not |-> TrueS]}}
   \cup {[extra |-> m] : m \in {[x |-> Num(R_1)], [x |-> Obj([type |-> Str("a")]), y |-> Null]}}
+  \* Extra keys named like real keywords (alone: the struct part of the value is empty; in pairs and nested: it is not)
+  \cup {[extra |-> m] : m \in {[minimum |-> Num(R_5)], [not |-> Bool(TRUE)], [type |-> Str("string")], [x |-> Num(R_1), minimum |-> Num(R_5)]}}
   \* PropertyOrder: shorter, equal and longer than properties, naming absent properties
   \cup {[properties |-> [a |-> IntS, b |-> [type |-> "string"]], propertyOrder |-> o] :
           o \in {<<"b">>, <<"b", "a">>, <<"a", "zz">>, <<"zz", "b", "yy">>, <<"zz">>, <<>>}}
@@ -251,13 +253,13 @@ OrderRefines ==
 
 \* C05 on the model: Unm(Mar(s)) keeps the meaning, and marshaling is idempotent
 RoundTripKeepsMeaning ==
-  (Family = "RT" /\ phase = "done") =>
+  (Family = "RT" /\ phase = "done" /\ ~MarErr(cs.s)) =>
      \* (the draft is a property of the document - its $schema - not of which keywords survive)
      /\ VerdDr(RoundTrip(cs.s), DrFor(cs.s)) = Verd(cs.s)
      /\ Mar(RoundTrip(cs.s)) = Mar(cs.s)
 \* ... and keeps every keyword (up to the documented omissions: empty non-asserting lists and maps, false flags)
 KeepsKeywords ==
-  (Family = "RT" /\ phase = "done" /\ "bool" \notin DOMAIN cs.s) =>
+  (Family = "RT" /\ phase = "done" /\ "bool" \notin DOMAIN cs.s /\ ~MarErr(cs.s)) =>
      LET m == Mar(cs.s)
      IN /\ "bool" \notin DOMAIN m
         /\ DOMAIN m = {k \in DOMAIN cs.s :
@@ -280,7 +282,8 @@ Emit ==
     PrintT(<<"CASE", ToJson(
       CASE Family = "PO" -> cs
         [] Family = "RD" -> cs
-        [] Family = "RT" -> [s |-> cs.s, dr |-> DrFor(cs.s), exp |-> Verd(cs.s), keys |-> SetToSeq(KeysOf(cs.s))]
+        [] Family = "RT" -> [s |-> cs.s, dr |-> DrFor(cs.s), exp |-> Verd(cs.s), keys |-> SetToSeq(KeysOf(cs.s)),
+                             marshal |-> IF MarErr(cs.s) THEN "err" ELSE "ok"]
         [] Family = "DK" -> [u |-> UnivOf(cs, cs.s), base |-> cs.base, exp |-> VerdC(cs, cs.base), dr |-> "2020"])>>)
 
 ASSUME Family \in {"RT", "DK"} => PrintT(<<"INSTS", ToJson(RTInsts)>>)
